@@ -52,6 +52,9 @@ TECMP::CanPayload::CanPayload()
 TECMP::CanPayload::CanPayload(const uint8_t* data, const size_t size)
     : Payload(TECMP::PayloadType::can, data, size)
 {
+    // Not a CAN payload unless it holds the header and the data bytes the header announces
+    if (size < sizeof(Header) || size - sizeof(Header) < getHeader()->getDlc())
+        setType(TECMP::PayloadType::invalid);
 }
 
 const uint8_t* TECMP::CanPayload::getData() const
